@@ -17,15 +17,18 @@
    Shape validity (validate_fri_proof_shape) is not needed separately: (b) and (c) imply the part of
    it that compression uses.
 
-   NOT covered: proofs that are accepted but whose openings are not openings of complete trees
-   known to the statement (a verifier only sees paths: siblings need not have known preimages).
-   For those the Merkle binding theorems of C05/C12 give consistency up to an exhibited collision,
-   but [decompress_compress_val] of Proofs/MerkleCompression.v asks for a value at EVERY tree node;
-   the theorems below are therefore about proofs made from complete trees (every honest proof,
-   C16b_honest_decompress_compress), not about all accepted proofs. *)
+   ACCEPTED proofs (C16b_accepted_round_trip_or_collision): a proof accepted by verify_fri_proof need
+   not come from complete trees (a verifier only sees paths; siblings need not have known
+   preimages), but all its openings are checked against one cap per oracle / per layer.  Then either
+   a collision of hash_or_noop / two_to_one is EXHIBITED AS A VALUE (Proofs.Fri.fri_collision), or
+   the openings are those of one partial Merkle tree per cap (Proofs/MerkleOpeningsConsistent.v), on
+   which path compression is invertible (Proofs/MerkleCompressionPartial.v), and the round trip
+   holds.  Side conditions: well-formed instance, one index per round, indices in the domain, a cap
+   for every oracle (verify_initial zips oracles with caps and would leave further oracles
+   unchecked), and a schedule that does not fold below the cap height. *)
 From Coq Require Import List ZArith Bool.
 From Verif Require Import Base.Field Model.Fp Model.Fp2 Model.Fri Model.FriProver Model.FriCompress
-  Model.C16Run2 Proofs.FriCompress.
+  Model.C16Run2 Proofs.Fri Proofs.FriCompress Proofs.FriCompressAcc.
 Import ListNotations.
 Local Open Scope nat_scope.
 
@@ -69,6 +72,22 @@ Section C16b.
       /\ get_inferred_elements inst openings ch cp p = Some inferred
       /\ decompress hash_or_noop two_to_one cp (fri_query_indices ch) inferred p = Some pr.
   Proof. exact (accepted_decompress_compress hash_or_noop two_to_one). Qed.
+
+  (* ANY accepted proof: the round trip, or an explicit hash collision *)
+  Theorem C16b_accepted_round_trip_or_collision : forall inst openings ch caps pr p,
+    verify_fri_proof hash_or_noop two_to_one inst openings ch caps pr p = inl tt ->
+    inst_wf inst ->
+    length (fri_query_indices ch) = length (fp_rounds pr) ->
+    fri_query_indices ch <> [] ->
+    (forall x, In x (fri_query_indices ch) -> x < 2 ^ lde_bits p) ->
+    length (oracles inst) <= length caps ->
+    total_arities p + cap_height (config p) <= lde_bits p ->
+    fri_collision hash_or_noop two_to_one
+    + {exists cp inferred,
+         compress pr (fri_query_indices ch) p = Some cp
+         /\ get_inferred_elements inst openings ch cp p = Some inferred
+         /\ decompress hash_or_noop two_to_one cp (fri_query_indices ch) inferred p = Some pr}.
+  Proof. exact (accepted_round_trip_or_collision hash_or_noop two_to_one). Qed.
 
   (* hypothesis (b) holds for every proof of the honest prover model (tied to the real prover by
      op friprove, C05) ... *)
@@ -166,7 +185,8 @@ Example C16b_example_round_trip :
   end.
 Proof. vm_compute. reflexivity. Qed.
 
-(* the hypotheses of C16b_accepted_decompress_compress hold for it (so its conclusion does) *)
+(* the hypotheses of C16b_accepted_decompress_compress and of C16b_accepted_round_trip_or_collision
+   hold for it (so their conclusions do) *)
 Example C16b_example_hypotheses :
   exists o, x_out = Some o
     /\ inst_wf x_inst
@@ -176,7 +196,9 @@ Example C16b_example_hypotheses :
     /\ (forall x, In x (fri_query_indices x_ch) -> x < 2 ^ lde_bits x_p)
     /\ trees_ok x_p (honest_its x_p x_oracles) (honest_layers x_inst x_p x_oracles x_ch)
     /\ Forall2 (round_opens xH xT x_p (honest_its x_p x_oracles) (honest_layers x_inst x_p x_oracles x_ch))
-               (fri_query_indices x_ch) (fp_rounds (ho_proof o)).
+               (fri_query_indices x_ch) (fp_rounds (ho_proof o))
+    /\ length (oracles x_inst) <= length (ho_caps o)
+    /\ total_arities x_p + cap_height (config x_p) <= lde_bits x_p.
 Proof.
   destruct x_out as [o|] eqn:Eo; [|vm_compute in Eo; discriminate Eo].
   exists o. split; [reflexivity|].
@@ -197,5 +219,8 @@ Proof.
   split.
   { intros x Hx. cbn [x_ch fri_query_indices] in Hx. change (2 ^ lde_bits x_p) with 16.
     repeat (destruct Hx as [<-|Hx]; [repeat constructor|]). destruct Hx. }
-  split; assumption.
+  split; [assumption|]. split; [assumption|]. split.
+  { assert (E : option_map (fun o => length (ho_caps o)) x_out = Some 2) by (vm_compute; reflexivity).
+    rewrite Eo in E. cbn [option_map] in E. injection E as ->. cbn. repeat constructor. }
+  vm_compute. repeat constructor.
 Qed.
